@@ -173,6 +173,12 @@ def rejected_changes(ctx, obj, m, S):
         def bad_rate(o, mm, rr):
             o.set_fixed_recurrence_rate(1.5)
         add("set_fixed_recurrence_rate(>1)", bad_rate)
+    if hasattr(obj, "JR") and hasattr(obj, "set_fixed_threshold"):
+        def bad_pair(o, mm, rr):
+            # one number where the pair (threshold of x, threshold of y) is
+            # expected
+            o.set_fixed_threshold(0.5)
+        add("set_fixed_threshold(one-number-for-a-pair)", bad_pair)
     if hasattr(obj, "update_resistances"):
         def bad_res(o, mm, rr):
             o.update_resistances(np.ones((1, 1)))
